@@ -78,10 +78,10 @@ for kind in KINDS:
     CASES += ["%s:version" % kind, "%s:flags" % kind] + ["%s:w%d" % (kind, i) for i in range(8)] + ["%s:wc" % kind]
 CASES += ["BD:hdr:%s" % f for f in ("ver", "sub", "compO", "compH")]
 CASES += ["BD:ascii:%d" % p for p in (0, 2, 4, 6, 8, 30)] + ["SS:ascii:0", "SS:w1", "SS:flags"]
-CO_FIELDS = ["a.prio", "a.frutype", "a.loc", "a.pn", "a.ccin", "a.sn", "a.pce_mtm", "a.pce_sn", "a.pce_name",
+CO_FIELDS = ["a.prio", "a.frutype", "a.loc", "a.pn", "a.ccin", "a.sn", "a.pce_mtm", "a.pce_sn", "a.pce_name", "a.pce_blank",
              "a.mru0", "a.mru1", "a.mruprio", "b.prio", "b.frutype", "b.proc", "b.loc"]
 CASES += ["CO:" + f for f in CO_FIELDS]
-QUICK = ["BD:w1", "BD:w3", "11:w0", "BC:w3", "XX:w1", "BD:wc", "BD:flags", "BD:version", "BD:ascii:0", "BD:ascii:8",
+QUICK = ["CO:a.pce_blank", "BD:w1", "BD:w3", "11:w0", "BC:w3", "XX:w1", "BD:wc", "BD:flags", "BD:version", "BD:ascii:0", "BD:ascii:8",
          "CO:a.prio", "CO:a.frutype", "CO:a.mru1", "CO:a.pce_name", "CO:b.proc", "CO:a.loc", "SS:w1"]
 
 LAYOUTS = ["n%d:f%X:p%d:m%d" % (n, f, p, m) for n in (1, 2) for f in range(16) for (p, m) in ((0, 0), (1, 0), (0, 1), (1, 2))]
@@ -187,6 +187,11 @@ def h_field() -> bool:
                 co_over[who]["fru"] = [b"ID", 28, 0x1D] + pb.txt(vals["pn"], 8) + pb.txt(vals["ccin"], 4) + pb.txt(vals["sn"], 12)
             else:
                 co_over[who]["fru"] = [b"ID", 12, 0x42, mkbytes(w, b"\0")]
+        elif fld == "pce_blank":
+            # a PCE identity without machine type (all NUL) but with a serial number / name
+            w = sym_bytes("w", 7, 0x20, 0x7E)
+            n = 7
+            co_over[who]["pce"] = [b"PE", 32, 0] + pb.txt(b"", 8) + pb.txt(b"PCESERIAL001", 12) + [mkbytes(w, b"\0")]
         elif fld in ("pce_mtm", "pce_sn", "pce_name"):
             width = {"pce_mtm": 8, "pce_sn": 12, "pce_name": 8}[fld]
             n = width - 1
@@ -319,6 +324,12 @@ def h_field() -> bool:
         elif fld == "pce_name":
             mine = ["PCE Name"]
             conds.append(str_is(me["PCE Name"], [w[j] for j in range(n)]))
+        elif fld == "pce_blank":
+            mine = ["PCE Name", "PCE MTMS"]
+            conds.append("PCE Name" in me and str_is(me["PCE Name"], [w[j] for j in range(n)]))
+            me0 = dict(me0)
+            me0.pop("PCE MTMS", None)
+            conds.append("PCE MTMS" not in me or me["PCE MTMS"] == "_PCESERIAL001")
         elif fld in ("mru0", "mru1"):
             mine = ["MRU Id"]
             ids = me["MRU Id"].split(",")
@@ -329,7 +340,7 @@ def h_field() -> bool:
                 conds.append(numval_eq(ids[1 - i], (0x00010001, 0x00020002)[1 - i], 16))
         elif fld == "mruprio":
             mine = []
-        conds.append(list(me.keys()) == list(me0.keys()))
+        conds.append([k3 for k3 in me.keys() if k3 != "PCE MTMS" or fld != "pce_blank"] == list(me0.keys()))
         for k2 in me0:
             if k2 not in mine:
                 conds.append(doc_eq(me[k2], me0[k2]))
